@@ -348,6 +348,32 @@ impl Prop for C19 {
             Part { name: "multi-digit".into(), strategy: s4, cases: tier.pick(30_000, 300_000) },
         ]
     }
+    fn enumerations(&self, tier: Tier) -> Vec<(String, String, Box<dyn Iterator<Item = Case19> + Send>)> {
+        // every small pattern with groups and back-references over two letters, on every short input
+        let cfg = crate::enumerate::EnumCfg {
+            atoms: vec![Node::Lit('a'), Node::Lit('b'), Node::Dot, Node::BackRef(40000)],
+            quants: vec![(0, Some(1), true), (0, None, true), (1, None, true), (2, Some(2), true), (0, Some(1), false), (1, None, false)],
+            cap: true,
+            noncap: false,
+            alt: true,
+            backref: true,
+        };
+        let size = tier.pick(6, 7);
+        let nodes: Vec<Node> = crate::enumerate::up_to(&cfg, size).into_iter().filter(|n| resolve(n).has_backref()).collect();
+        let inputs = crate::enumerate::inputs(&['a', 'b'], tier.pick(4, 5));
+        let scope = format!(
+            "all {} ASTs of size <= {} over atoms {{a,b,.,\\first,\\last}} with capturing groups, alternation and quantifiers {{?,*,+,{{2}},??,+?}} that contain a back-reference after resolution x all {} inputs over {{a,b}} of length <= {} x flags {{'', i}}",
+            nodes.len(),
+            size,
+            inputs.len(),
+            tier.pick(4, 5)
+        );
+        let it = nodes.into_iter().flat_map(move |node| {
+            let inputs = inputs.clone();
+            ["", "i"].into_iter().map(move |f| Case19::Ast(AstCase { node: node.clone(), flags: f.to_string(), inputs: Inputs::Lit(inputs.clone()) }))
+        });
+        vec![("exhaustive-small".into(), scope, Box::new(it))]
+    }
     fn check(&self, case: &Case19, ctx: &mut Ctx) -> Verdict {
         check(case, ctx)
     }
